@@ -108,6 +108,11 @@ func c07Configs(env *engine.Env) []c07Config {
 	out = append(out, c07Config{name: "many-files", heavy: true, doc: func(env *engine.Env, root string) fixture.Doc {
 		return Setting{Name: "default"}.doc([]model.Entry{{Src: "many", Dst: "/opt/many", Type: "tree"}}, root)
 	}})
+	// sources whose paths are below 100 bytes written relative to the tree and above 100 bytes written absolutely
+	out = append(out, c07Config{name: "long-source-paths", doc: func(env *engine.Env, root string) fixture.Doc {
+		return Setting{Name: "default"}.doc([]model.Entry{{Src: fixture.LongSrcDir + "/payload.bin", Dst: "/opt/payload.bin"}, {Src: fixture.LongSrcDir + "/settings.conf", Dst: "/etc/settings.conf", Type: "config"},
+			{Src: fixture.LongSrcDir + "/*.conf", Dst: "/etc/globbed"}, {Src: "longsrc", Dst: "/opt/longsrc", Type: "tree"}}, root)
+	}})
 	// files larger than every compressor window / parallel-compression threshold (21 MiB in all)
 	out = append(out, c07Config{name: "huge-files", heavy: true, doc: func(env *engine.Env, root string) fixture.Doc {
 		return Setting{Name: "default"}.doc([]model.Entry{{Src: "huge", Dst: "/opt/huge", Type: "tree"}, {Src: "huge/noise.bin", Dst: "/opt/second-copy.bin"}}, root)
@@ -293,25 +298,57 @@ func checkC07(env *engine.Env, ci any) engine.Outcome {
 		out.Key = "wallclock"
 		return out
 	case "hostfile":
-		// a symlink entry whose target path does / does not exist on the build host
+		// a path the package mentions - a link's target, the destination of a ghost, a directory, a file, a config file -
+		// does not exist on the build host / is a file there (mode 0600, 0755) / is a directory there (mode 0700)
 		target := filepath.Join(env.Scratch, "hostfile-target")
-		os.Remove(target)
-		d := Setting{Name: "default"}.doc([]model.Entry{{Src: target, Dst: "/usr/bin/link", Type: "symlink"}}, t.Root)
-		a, err1 := buildYAML(d.YAML(), f)
-		os.WriteFile(target, []byte("x"), 0o600)
-		b, err2 := buildYAML(d.YAML(), f)
-		os.Chmod(target, 0o755)
-		c2, err3 := buildYAML(d.YAML(), f)
-		os.Remove(target)
-		out.Transitions = 3
+		os.RemoveAll(target)
+		defer os.RemoveAll(target)
 		out.Key = "hostfile:" + f
-		if err1 != nil || err2 != nil || err3 != nil {
-			viol("repro:build-error:"+f, "%v %v %v", err1, err2, err3)
-			return out
-		}
-		out.Nontrivial = true
-		if !bytes.Equal(a, b) || !bytes.Equal(b, c2) {
-			viol("repro:differs:hostfile:"+f, "a symlink entry's package bytes depend on a file at the link's target path on the build host, which is not a referenced source: absent %s, present mode 0600 %s, present mode 0755 %s", shortHash(a), shortHash(b), shortHash(c2))
+		for _, e := range []model.Entry{
+			{Src: target, Dst: "/usr/bin/link", Type: "symlink"},
+			{Dst: target, Type: "ghost"},
+			{Dst: target, Type: "ghost", HasInfo: true, Owner: "app"},
+			{Dst: target, Type: "dir"},
+			{Src: "etc/app.conf", Dst: target},
+			{Src: "etc/app.conf", Dst: target, Type: "config|noreplace"},
+			{Src: "tree", Dst: target, Type: "tree"},
+		} {
+			d := Setting{Name: "default"}.doc([]model.Entry{e}, t.Root)
+			var outs [][]byte
+			var labels []string
+			for _, st := range []string{"absent", "file-0600", "file-0755", "dir-0700"} {
+				os.RemoveAll(target)
+				switch st {
+				case "file-0600":
+					os.WriteFile(target, []byte("x"), 0o600)
+				case "file-0755":
+					os.WriteFile(target, []byte("other content"), 0o755)
+					os.Chmod(target, 0o755)
+				case "dir-0700":
+					os.Mkdir(target, 0o700)
+					os.WriteFile(filepath.Join(target, "inside"), []byte("y"), 0o640)
+				}
+				b, err := buildYAML(d.YAML(), f)
+				out.Transitions++
+				if err != nil {
+					viol("repro:build-error:"+f, "host path %s, entry %s %s: %v", st, e.Type, e.Dst, err)
+					return out
+				}
+				outs = append(outs, b)
+				labels = append(labels, st+" "+shortHash(b))
+			}
+			os.RemoveAll(target)
+			out.Nontrivial = true
+			for _, b := range outs[1:] {
+				if !bytes.Equal(b, outs[0]) {
+					kind := e.Type
+					if kind == "" {
+						kind = "file"
+					}
+					viol("repro:differs:hostfile:"+f+":"+kind, "the package bytes of a %s entry depend on what exists on the build host at a path that is not a referenced source (%s): %v", kind, target, labels)
+					break
+				}
+			}
 		}
 		return out
 	}
